@@ -265,7 +265,9 @@ def run_ac(case):
   ns = L.setup()
   cl = L.Cluster(case['workers'], case['plans'], prefetched=False)
   T = ns.lazy_fns.trace
-  tasks = [T(L.FailAt(i))(i) if i in case['bad'] else T(L._double)(i) for i in range(case['tasks'])]
+  slow = case.get('slow', 0)
+  tasks = [T(L.FailAt(i))(i) if i in case['bad'] else (T(L.slow_double)(i, slow) if slow else T(L._double)(i))
+           for i in range(case['tasks'])]
   out = []
   try:
     def body():
